@@ -29,6 +29,12 @@ fn with_unwind(mut out: Outcome, p: &Params, prop: &'static str) -> Outcome {
     out
 }
 
+/// two adapters driven by one limit observable (runners_pairs.rs)
+fn with_pairs(mut out: Outcome, p: &Params, prop: &'static str) -> Outcome {
+    out.merge(eyeball_verif::runners_pairs::run_pairs(p, prop));
+    out
+}
+
 fn spec(id: &str) -> Option<Spec> {
     Some(match id {
         "C01" => Spec {
@@ -104,7 +110,7 @@ fn spec(id: &str) -> Option<Spec> {
             assumptions: BASE_ASSUME,
         },
         "C09" => Spec {
-            run: runners_adp::run_c09,
+            run: |p| with_pairs(runners_adp::run_c09(p), p, "C09"),
             level: "exploration",
             rule: "histories = initial vector + adapter (head/tail/skip, static / dynamic with initial value / purely dynamic, observable- or queue-backed limit stream) + source operations, limit changes, polls, close-limit, drop, on both stream flavours; a tap after the source stream and after the adapter logs every item; at every Pending of the adapter the rebuilt view is compared with first/last/all-but-first p items of the vector's contents (latest announced p), every diff is applied through a checked replica, and the end of the stream is compared with the end of the source. Non-trivial = the adapter emitted at least one diff, at least one quiescent check ran and a non-empty view was checked; distinct = hash of the whole history.",
             assumptions: BASE_ASSUME,
@@ -134,7 +140,7 @@ fn spec(id: &str) -> Option<Spec> {
             assumptions: BASE_ASSUME,
         },
         "C14" => Spec {
-            run: runners_adp::run_c14,
+            run: |p| with_pairs(runners_adp::run_c14(p), p, "C14"),
             level: "exploration",
             rule: "every poll of the observed stream gets a fresh flag waker; whenever a poll is Ready (item or end) and the previous poll was Pending, the previous poll's waker must have been woken; evaluated in 'drain after every operation' and in lazy mode, for the plain stream, every adapter and random chains, with source updates, limit changes, limit-stream end and drop of the source as inputs. Non-trivial = at least one such implication was evaluated and the stream emitted something; distinct = hash of the history.",
             assumptions: BASE_ASSUME,
